@@ -3,7 +3,7 @@ import json, re
 from .. import core
 from . import stackcommon as sc
 
-EMITS = set("S V Q G A P PM R X E B ST CB TXT RACE VR NS STORM STORMA STALL PSPLIT".split())
+EMITS = set("S V Q G A P PM R X E B ST CB TXT RACE VR NS STORM STORMA STALL PSPLIT SRPMANY".split())
 
 ADV_SETUP = ["wrongcode", "wrongproof", "noproof", "a0", "aN", "a2N", "aempty", "m5first", "start", "m3wrong", "m5zerokey",
              "m5randkey", "badstep", "badmethod", "garbage", "aNforged", "a0forged", "aemptyforged", "wrongcodezero", "m5zeroempty", "m5emptyhkdf"]
@@ -423,6 +423,11 @@ def gen_c04(rng, tier):
             ops += ["N:v%d" % k, "V:v%d:c0:ok" % k, "G:v%d:2.9" % k]
         mk(cases, "honest-repeat", ops, {}, opts="nacc=0")
         cases[-1]["noretry"] = True
+    # more than a thousand pair-setup exchanges M1..M4 on fresh connections: the accessory's SRP key is new every time
+    # (about one in 256 has a leading zero byte); every one must succeed
+    for i in range(1 if tier == "quick" else 4):
+        mk(cases, "srp-many", ["SRPMANY:%d" % (1200 if tier == "quick" else 3000)], {}, opts="pin=%s nacc=0" % valid_pin(rng))
+        cases[-1]["noretry"] = True
     for i in range(4 if tier == "quick" else 40):
         pin = valid_pin(rng)
         ops = ["N:a", "S:a:c0:wrongcode", "ST", "N:b", "S:b:c0:ok", "ST"]
@@ -441,6 +446,8 @@ def oracle_c04(c, obs):
     pairs, ok = pair_tokens(c["line"], obs)
     for op, tok in pairs:
         p = op.split(":")
+        if p[0] == "SRPMANY" and tok != "SRPMANY=ok":
+            return "pair-setup with the right code, on fresh connections: " + tok[8:].replace("-", " ")
         if c["kind"] == "honest":
             if p[0] == "S" and tok != "S=st2/st4/st6[M2okM6ok]":
                 return "pair-setup of a specification-conformant controller did not complete / a proof or signature of the accessory did not verify: " + tok
